@@ -803,6 +803,9 @@ def _scalar_value_tomof(
                 "for conversion to a MOF string",
                 type, builtin_type(value))
     val = str(value)
+    if isinstance(value, CIMFloat) and 'e' in val and '.' not in val:
+        # The MOF syntax for real values requires a decimal point
+        val = val.replace('e', '.0e')
     return mofval(val, indent, maxline, line_pos, end_space)
 
 
